@@ -45,6 +45,8 @@ Record tree_case := {
   tc_root : contents;                 (* contents of "/" (always empty on the test machine) *)
   tc_levels : levels;                 (* every directory from "/" down to the start directory *)
   tc_file : option str;               (* the search was started from this file of the start directory *)
+  tc_cwd : str;                       (* working directory of the call *)
+  tc_arg : str;                       (* the start path as it was spelled *)
   tc_found : find_result;             (* config.FindConfig *)
   tc_dir : up_result;                 (* config.FindRegalDirectory *)
   tc_yaml : up_result;                (* config.FindRegalConfigFile *)
@@ -54,9 +56,9 @@ Definition tc_fs (t : tree_case) : fsys := fs_of_chain (tc_root t) (tc_levels t)
 Definition tc_start (t : tree_case) : str := start_path (tc_levels t) (tc_file t).
 
 Definition tree_model_ok (t : tree_case) : bool :=
-  find_result_eqb (find_config (tc_fs t) (tc_start t)) (tc_found t) &&
-  up_result_eqb (find_regal_directory (tc_fs t) (tc_start t)) (tc_dir t) &&
-  up_result_eqb (find_regal_config_file (tc_fs t) (tc_start t)) (tc_yaml t).
+  find_result_eqb (find_config (tc_fs t) (tc_cwd t) (tc_arg t)) (tc_found t) &&
+  up_result_eqb (find_regal_directory (tc_fs t) (tc_cwd t) (tc_arg t)) (tc_dir t) &&
+  up_result_eqb (find_regal_config_file (tc_fs t) (tc_cwd t) (tc_arg t)) (tc_yaml t).
 
 Definition tree_cli_model_ok (t : tree_case) : bool :=
   match tc_cli t with
@@ -116,7 +118,8 @@ Definition plain_nameb (n : str) : bool :=
 
 Definition tree_in_domain (t : tree_case) : bool :=
   forallb plain_nameb (names (tc_levels t)) &&
-  match tc_file t with Some f => plain_nameb f | None => true end.
+  match tc_file t with Some f => plain_nameb f | None => true end &&
+  str_eqb (abs_path (tc_cwd t) (tc_arg t)) (tc_start t).
 
 (* ---------------- configurations ---------------- *)
 
